@@ -269,6 +269,23 @@ fn classify(sh: &Shm, status: i32, timed_out: bool) -> RunResult {
     }
     // the child died without a verdict of its own
     let viol = |prop: String, oracle: &str, msg: String| Verdict::Violation { prop, oracle: oracle.to_string(), msg };
+    if sh.expect_set == 3 && signaled {
+        // the engine declared: the process is about to be terminated by one of two signals
+        // (armed default-action emulation); expect_exit = A | B << 8
+        let (a, b) = (sh.expect_exit & 0xff, (sh.expect_exit >> 8) & 0xff);
+        if tsig == a || tsig == b {
+            return mk(Verdict::Ok);
+        }
+    }
+    if timed_out && sh.in_handler_now > 0 && sigs(&sh.hang_prop).is_empty() {
+        // no scheduling point for 4 s of CPU time (or 30 s of wall time without CPU progress) while
+        // a signal delivery is on some thread's stack: the delivery spins or blocks
+        return mk(viol(
+            "C03".into(),
+            "delivery-never-returns",
+            format!("the simulated process stopped making progress while {} signal deliver{} running (a handler that spins or blocks without reaching a scheduling point); progress marker {}; note: {}", sh.in_handler_now, if sh.in_handler_now == 1 { "y was" } else { "ies were" }, sh.progress, sh.note_str().chars().take(300).collect::<String>()),
+        ));
+    }
     if timed_out {
         let hp = sigs(&sh.hang_prop);
         if !hp.is_empty() {
